@@ -451,7 +451,8 @@ impl LineProgram {
 
         if line_advance != 0 {
             let special_line = (line_advance as u64).wrapping_sub(line_base);
-            if special_line < line_range {
+            // For a large line range, not all line advances fit in the opcode space.
+            if special_line < line_range && special_base + special_line <= 255 {
                 special = special_base + special_line;
                 use_special = true;
             } else {
